@@ -1264,4 +1264,217 @@ theorem no_divergence_aux (rules : List Term) (inp : Str) (t : Term) (h : WellFo
   intro i pos' σ' f' hle hk
   simp at hle
   exact refs_ok rules inp n hr n i pos' σ' f' (by omega) (Nat.le_refl _) hk
+
+/-! ### the grammar-building operators `+` and `|` -/
+
+theorem Ev.ne_diverge {rules : List Term} {inp : Str} {t : Term} {pos : Nat} {r : Res}
+    (h : Ev rules inp t pos r) : r ≠ .diverge := by
+  induction h <;> simp_all
+
+theorem ev_seq_val {rules : List Term} {inp : Str} {xs : List Term} {pos p : Nat} {v : Val}
+    (h : Ev rules inp (.seq xs) pos (.ok p v)) : ∃ vs, v = .list vs := by
+  cases h <;> exact ⟨_, rfl⟩
+
+/-- a sequence extended on the right: the new element's value is appended to the list -/
+theorem ev_seq_snoc_ok {rules : List Term} {inp : Str} {y : Term} {q : Nat} {w : Val} :
+    ∀ {xs : List Term} {pos p : Nat} {vs : List Val}, Ev rules inp (.seq xs) pos (.ok p (.list vs)) →
+      Ev rules inp y p (.ok q w) → Ev rules inp (.seq (xs ++ [y])) pos (.ok q (.list (vs ++ [w]))) := by
+  intro xs
+  induction xs with
+  | nil => intro pos p vs h1 h2; cases h1; exact .seqCons h2 .seqNil
+  | cons x xs ih =>
+    intro pos p vs h1 h2
+    cases h1 with
+    | seqCons hx hrest => exact .seqCons hx (ih hrest h2)
+
+theorem ev_seq_snoc_fail_left {rules : List Term} {inp : Str} {y : Term} :
+    ∀ {xs : List Term} {pos : Nat}, Ev rules inp (.seq xs) pos .fail → Ev rules inp (.seq (xs ++ [y])) pos .fail := by
+  intro xs
+  induction xs with
+  | nil => intro pos h; cases h
+  | cons x xs ih =>
+    intro pos h
+    cases h with
+    | seqFailHead hx => exact .seqFailHead hx
+    | seqFailTail hx hrest => exact .seqFailTail hx (ih hrest)
+
+theorem ev_seq_snoc_fail_right {rules : List Term} {inp : Str} {y : Term} {p : Nat} :
+    ∀ {xs : List Term} {pos : Nat} {vs : List Val}, Ev rules inp (.seq xs) pos (.ok p (.list vs)) →
+      Ev rules inp y p .fail → Ev rules inp (.seq (xs ++ [y])) pos .fail := by
+  intro xs
+  induction xs with
+  | nil => intro pos vs h1 h2; cases h1; exact .seqFailHead h2
+  | cons x xs ih =>
+    intro pos vs h1 h2
+    cases h1 with
+    | seqCons hx hrest => exact .seqFailTail hx (ih hrest h2)
+
+/-- … and nothing else: every outcome of the extended sequence arises that way -/
+theorem ev_seq_snoc_inv {rules : List Term} {inp : Str} {y : Term} :
+    ∀ {xs : List Term} {pos : Nat} {r : Res}, Ev rules inp (.seq (xs ++ [y])) pos r →
+      (∃ p vs q w, Ev rules inp (.seq xs) pos (.ok p (.list vs)) ∧ Ev rules inp y p (.ok q w) ∧
+          r = .ok q (.list (vs ++ [w]))) ∨
+      (r = .fail ∧ (Ev rules inp (.seq xs) pos .fail ∨
+          ∃ p vs, Ev rules inp (.seq xs) pos (.ok p (.list vs)) ∧ Ev rules inp y p .fail)) := by
+  intro xs
+  induction xs with
+  | nil =>
+    intro pos r h
+    simp only [List.nil_append] at h
+    cases h with
+    | seqCons hy hnil => cases hnil; exact .inl ⟨_, _, _, _, .seqNil, hy, rfl⟩
+    | seqFailHead hy => exact .inr ⟨rfl, .inr ⟨_, _, .seqNil, hy⟩⟩
+    | seqFailTail hy hnil => cases hnil
+  | cons x xs ih =>
+    intro pos r h
+    simp only [List.cons_append] at h
+    cases h with
+    | seqCons hx hrest =>
+      rcases ih hrest with ⟨p, vs, q, w, h1, h2, h3⟩ | ⟨h0, _⟩
+      · cases h3; exact .inl ⟨_, _, _, _, .seqCons hx h1, h2, rfl⟩
+      · cases h0
+    | seqFailHead hx => exact .inr ⟨rfl, .inl (.seqFailHead hx)⟩
+    | seqFailTail hx hrest =>
+      rcases ih hrest with ⟨p, vs, q, w, _, _, h3⟩ | ⟨_, h1 | ⟨p, vs, h1, h2⟩⟩
+      · cases h3
+      · exact .inr ⟨rfl, .inl (.seqFailTail hx h1)⟩
+      · exact .inr ⟨rfl, .inr ⟨_, _, .seqCons hx h1, h2⟩⟩
+
+theorem plus_of_not_seq {x : Term} (y : Term) (h : x.isSeq = false) : plus x y = .seq [x, y] := by
+  cases x <;> simp [plus, Term.isSeq] at h ⊢
+
+theorem alt_of_not_choice {x : Term} (y : Term) (h : x.isChoice = false) : alt x y = .choice [x, y] := by
+  cases x <;> simp [alt, Term.isChoice] at h ⊢
+
+theorem ev_pair_inv {rules : List Term} {inp : Str} {x y : Term} {pos : Nat} {r : Res}
+    (h : Ev rules inp (.seq [x, y]) pos r) :
+    (∃ p v q w, Ev rules inp x pos (.ok p v) ∧ Ev rules inp y p (.ok q w) ∧ r = .ok q (.list [v, w])) ∨
+    (r = .fail ∧ (Ev rules inp x pos .fail ∨ ∃ p v, Ev rules inp x pos (.ok p v) ∧ Ev rules inp y p .fail)) := by
+  cases h with
+  | seqCons hx hrest =>
+    cases hrest with
+    | seqCons hy hnil => cases hnil; exact .inl ⟨_, _, _, _, hx, hy, rfl⟩
+  | seqFailHead hx => exact .inr ⟨rfl, .inl hx⟩
+  | seqFailTail hx hrest =>
+    cases hrest with
+    | seqFailHead hy => exact .inr ⟨rfl, .inr ⟨_, _, hx, hy⟩⟩
+    | seqFailTail hy hnil => cases hnil
+
+/-- every outcome of `x + y`, whichever way `x` is built: it is `x` then `y`; the value is `x`'s
+list extended by `y`'s value when `x` is a Sequence, the pair of both values otherwise -/
+theorem plus_inv {rules : List Term} {inp : Str} {x y : Term} {pos : Nat} {r : Res}
+    (h : Ev rules inp (plus x y) pos r) :
+    (∃ p v q w, Ev rules inp x pos (.ok p v) ∧ Ev rules inp y p (.ok q w) ∧
+        r = .ok q (match x, v with | .seq _, .list vs => .list (vs ++ [w]) | _, _ => .list [v, w])) ∨
+    (r = .fail ∧ (Ev rules inp x pos .fail ∨ ∃ p v, Ev rules inp x pos (.ok p v) ∧ Ev rules inp y p .fail)) := by
+  by_cases hx : x.isSeq = true
+  · cases x <;> simp [Term.isSeq] at hx
+    rename_i xs
+    simp only [plus] at h
+    rcases ev_seq_snoc_inv h with ⟨p, vs, q, w, h1, h2, h3⟩ | ⟨h0, h1 | ⟨p, vs, h1, h2⟩⟩
+    · exact .inl ⟨_, _, _, _, h1, h2, h3⟩
+    · exact .inr ⟨h0, .inl h1⟩
+    · exact .inr ⟨h0, .inr ⟨_, _, h1, h2⟩⟩
+  · replace hx : x.isSeq = false := by simpa using hx
+    rw [plus_of_not_seq y hx] at h
+    rcases ev_pair_inv h with ⟨p, v, q, w, h1, h2, h3⟩ | h0
+    · refine .inl ⟨_, _, _, _, h1, h2, ?_⟩
+      cases x <;> simp [Term.isSeq] at hx <;> exact h3
+    · exact .inr h0
+
+theorem plus_ok {rules : List Term} {inp : Str} {x y : Term} {pos p q : Nat} {v w : Val}
+    (h1 : Ev rules inp x pos (.ok p v)) (h2 : Ev rules inp y p (.ok q w)) :
+    Ev rules inp (plus x y) pos (.ok q (match x, v with | .seq _, .list vs => .list (vs ++ [w]) | _, _ => .list [v, w])) := by
+  by_cases hx : x.isSeq = true
+  · cases x <;> simp [Term.isSeq] at hx
+    obtain ⟨vs, rfl⟩ := ev_seq_val h1
+    simp only [plus]
+    exact ev_seq_snoc_ok h1 h2
+  · replace hx : x.isSeq = false := by simpa using hx
+    rw [plus_of_not_seq y hx]
+    cases x <;> simp [Term.isSeq] at hx <;> exact .seqCons h1 (.seqCons h2 .seqNil)
+
+theorem plus_fail_left {rules : List Term} {inp : Str} {x y : Term} {pos : Nat}
+    (h1 : Ev rules inp x pos .fail) : Ev rules inp (plus x y) pos .fail := by
+  by_cases hx : x.isSeq = true
+  · cases x <;> simp [Term.isSeq] at hx
+    simp only [plus]; exact ev_seq_snoc_fail_left h1
+  · replace hx : x.isSeq = false := by simpa using hx
+    rw [plus_of_not_seq y hx]; exact .seqFailHead h1
+
+theorem plus_fail_right {rules : List Term} {inp : Str} {x y : Term} {pos p : Nat} {v : Val}
+    (h1 : Ev rules inp x pos (.ok p v)) (h2 : Ev rules inp y p .fail) : Ev rules inp (plus x y) pos .fail := by
+  by_cases hx : x.isSeq = true
+  · cases x <;> simp [Term.isSeq] at hx
+    obtain ⟨vs, rfl⟩ := ev_seq_val h1
+    simp only [plus]; exact ev_seq_snoc_fail_right h1 h2
+  · replace hx : x.isSeq = false := by simpa using hx
+    rw [plus_of_not_seq y hx]; exact .seqFailTail h1 (.seqFailHead h2)
+
+/-- ordered choice extended on the right -/
+theorem ev_choice_snoc {rules : List Term} {inp : Str} {y : Term} :
+    ∀ {xs : List Term} {pos : Nat} {r : Res}, Ev rules inp (.choice (xs ++ [y])) pos r ↔
+      ((r.isOk = true ∧ Ev rules inp (.choice xs) pos r) ∨ (Ev rules inp (.choice xs) pos .fail ∧ Ev rules inp y pos r)) := by
+  intro xs
+  induction xs with
+  | nil =>
+    intro pos r
+    simp only [List.nil_append]
+    constructor
+    · intro h
+      cases h with
+      | choiceHit hy => exact .inr ⟨.choiceNil, hy⟩
+      | choiceMiss hy hnil => cases hnil; exact .inr ⟨.choiceNil, hy⟩
+    · rintro (⟨hok, h⟩ | ⟨_, hy⟩)
+      · cases h; simp [Res.isOk] at hok
+      · cases r with
+        | ok p v => exact .choiceHit hy
+        | fail => exact .choiceMiss hy .choiceNil
+        | diverge => exact absurd rfl hy.ne_diverge
+  | cons x xs ih =>
+    intro pos r
+    simp only [List.cons_append]
+    constructor
+    · intro h
+      cases h with
+      | choiceHit hx => exact .inl ⟨rfl, .choiceHit hx⟩
+      | choiceMiss hx hrest =>
+        rcases ih.mp hrest with ⟨hok, h1⟩ | ⟨h1, h2⟩
+        · exact .inl ⟨hok, .choiceMiss hx h1⟩
+        · exact .inr ⟨.choiceMiss hx h1, h2⟩
+    · rintro (⟨hok, h⟩ | ⟨h1, hy⟩)
+      · cases h with
+        | choiceHit hx => exact .choiceHit hx
+        | choiceMiss hx hrest => exact .choiceMiss hx (ih.mpr (.inl ⟨hok, hrest⟩))
+      · cases h1 with
+        | choiceMiss hx hrest => exact .choiceMiss hx (ih.mpr (.inr ⟨hrest, hy⟩))
+
+theorem ev_choice_pair {rules : List Term} {inp : Str} {x y : Term} {pos : Nat} {r : Res} :
+    Ev rules inp (.choice [x, y]) pos r ↔
+      ((r.isOk = true ∧ Ev rules inp x pos r) ∨ (Ev rules inp x pos .fail ∧ Ev rules inp y pos r)) := by
+  constructor
+  · intro h
+    cases h with
+    | choiceHit hx => exact .inl ⟨rfl, hx⟩
+    | choiceMiss hx hrest =>
+      cases hrest with
+      | choiceHit hy => exact .inr ⟨hx, hy⟩
+      | choiceMiss hy hnil => cases hnil; exact .inr ⟨hx, hy⟩
+  · rintro (⟨hok, h⟩ | ⟨hx, hy⟩)
+    · cases r <;> simp [Res.isOk] at hok; exact .choiceHit h
+    · cases r with
+      | ok p v => exact .choiceMiss hx (.choiceHit hy)
+      | fail => exact .choiceMiss hx (.choiceMiss hy .choiceNil)
+      | diverge => exact absurd rfl hy.ne_diverge
+
+/-- every outcome of `x | y`, whichever way `x` is built: `x`'s success, else `y`'s outcome -/
+theorem alt_iff {rules : List Term} {inp : Str} {x y : Term} {pos : Nat} {r : Res} :
+    Ev rules inp (alt x y) pos r ↔
+      ((r.isOk = true ∧ Ev rules inp x pos r) ∨ (Ev rules inp x pos .fail ∧ Ev rules inp y pos r)) := by
+  by_cases hx : x.isChoice = true
+  · cases x <;> simp [Term.isChoice] at hx
+    simp only [alt]; exact ev_choice_snoc
+  · replace hx : x.isChoice = false := by simpa using hx
+    rw [alt_of_not_choice y hx]; exact ev_choice_pair
+
 end IV.Peg
